@@ -73,4 +73,17 @@ def insertNodeWithValue : List Ev := graphInsertNode 0 ++ keyValuesInsert 50
 def removeNodeWithEdge : List Ev :=
   graphInsertEdge 0 ++ keyValuesRemove 10 ++ graphRemoveNode 20 ++ keyValuesRemove 30
 
+/-- two storage-level operations, each with its own bracket -/
+def cexClosure : List Ev := br [Ev.write 1 1] ++ br [Ev.write 2 1]
+
+
+/-- a failing header write inside `insert_bytes`, then a later successful insert -/
+def stuckHistory : List TxnStep :=
+  [⟨br [Ev.fail], [], true⟩, ⟨br [Ev.write 5 1], [], true⟩]
+
+
+/-- a consistency notion for the two-cell example: cell 1 (a pointer) and cell 2 (its target) agree -/
+def cexConsistent (i : Img) : Prop := i 1 = i 2
+
+
 end AgdbCrash.Code
